@@ -479,6 +479,115 @@ theorem qname_valid (fs : Int → Str) (ns : Nat) (name : Str) (hname : escBody 
 
 theorem nodeId_encode (fs : Int → Str) (n : NodeId) : jsonEncode fs (.nodeId n) = .ok (some (nodeIdJson n)) := by rw [jsonEncode]
 
+/-! ### nested objects: Variant and ExtensionObject -/
+
+/-- an object text `{` members, inside a larger text: what the value reader does with it -/
+theorem readValue_obj (f : Nat) (r' : Str) (ms : List (Str × JsonV)) (after : Str)
+    (hm : readMembers f ('"' :: r') = some (ms, after)) :
+    readValue (f + 1) ('{' :: '"' :: r') = some (.obj ms, after) := by
+  rw [readValue, skipWs_cons _ _ (by decide)]
+  simp only [show ('{' : Char) ≠ '"' from by decide, show ('{' : Char) ≠ '[' from by decide, if_false, if_true]
+  rw [skipWs_cons _ _ (by decide)]
+  simp [hm]
+
+def kType : Str := "Type".toList
+def kBody : Str := "Body".toList
+theorem typeKey_eq : "{\"Type\":".toList = '{' :: (pyJsonQuote kType ++ [':']) := by decide
+theorem bodyKey_eq : ",\"Body\":".toList = ',' :: (pyJsonQuote kBody ++ [':']) := by decide
+
+/-- **Variant has the right shape**: whenever the encoding `body` of the inner value is read back as the
+    JSON value `v` (in front of a closing brace, with whatever fuel), the Variant's encoding is the object
+    `{"Type": <built-in type number>, "Body": v}` -/
+theorem variant_shape (n : Nat) (body : Str) (v : JsonV)
+    (hv : ∀ f, readValue (f + 1) (body ++ ['}']) = some (v, ['}'])) :
+    parseJson ("{\"Type\":".toList ++ showNat n ++ ",\"Body\":".toList ++ body ++ ['}']) =
+      some (.obj [(kType, .num (showNat n)), (kBody, v)]) := by
+  have hq : ∀ (key r : Str), pyJsonQuote key ++ r = '"' :: (escBody key ++ '"' :: r) := by intro key r; simp [pyJsonQuote]
+  have hshape : "{\"Type\":".toList ++ showNat n ++ ",\"Body\":".toList ++ body ++ ['}'] =
+      '{' :: (pyJsonQuote kType ++ ':' :: (showNat n ++ (',' :: (pyJsonQuote kBody ++ ':' :: (body ++ ['}']))))) := by
+    rw [typeKey_eq, bodyKey_eq]; simp
+  rw [hshape]
+  refine parseJson_obj _ _ '"' _ (hq _ _) rfl ?_
+  obtain ⟨m, hm⟩ := exists_fuel ((pyJsonQuote kType ++ ':' :: (showNat n ++ (',' :: (pyJsonQuote kBody ++ ':' :: (body ++ ['}']))))).length + 1) 3
+    (by simp [pyJsonQuote]; omega)
+  rw [hm]
+  have hin := readMembers_member m kBody body ['}'] v (hv m) [] [] (Or.inl ⟨rfl, rfl⟩)
+  exact readMembers_member (m + 1) kType (showNat n) _ (.num (showNat n)) (readValue_nat (m + 1) n _ (endsNumber_comma _)) _ [] (Or.inr ⟨_, rfl, hin⟩)
+
+/-- … instantiated: a Variant holding a string -/
+theorem variant_string_valid (fs : Int → Str) (s : Str) :
+    ∃ j, jsonEncode fs (.variant (.str (some s))) = .ok (some j) ∧
+      parseJson j = some (.obj [(kType, .num (showNat 12)), (kBody, .str s)]) := by
+  refine ⟨"{\"Type\":".toList ++ showNat 12 ++ ",\"Body\":".toList ++ pyJsonQuote s ++ ['}'], ?_, ?_⟩
+  · simp [jsonEncode, variantTypeOf]
+  · exact variant_shape 12 (pyJsonQuote s) (.str s) (fun f => readValue_quote f s _)
+
+/-- … and a Variant holding a non-negative integer of at most 32 bits -/
+theorem variant_int_valid (fs : Int → Str) (k : IntKind) (hk : is64 k = false) (t : Nat) (ht : variantNumber k.tag = some t) (n : Nat) :
+    ∃ j, jsonEncode fs (.variant (.int k (some (n : Int)))) = .ok (some j) ∧
+      parseJson j = some (.obj [(kType, .num (showNat t)), (kBody, .num (showNat n))]) := by
+  refine ⟨"{\"Type\":".toList ++ showNat t ++ ",\"Body\":".toList ++ showNat n ++ ['}'], ?_, ?_⟩
+  · simp [jsonEncode, variantTypeOf, hk, ht, pyStrInt]
+  · exact variant_shape t (showNat n) (.num (showNat n)) (fun f => readValue_nat f n _ (endsNumber_brace _))
+
+
+/-- a numeric NodeId object inside a larger text, read with any fuel ≥ 4 -/
+theorem nodeId_numeric_read (ns k f : Nat) (after : Str) :
+    readValue (f + 4) (nodeIdJson ⟨(ns : Int), .i, showNat k⟩ ++ after) =
+      some (.obj ((if ns = 0 then [] else [(kNamespace, .num (showNat ns))]) ++ [(kId, .num (showNat k))]), after) := by
+  have hq : ∀ (key r : Str), pyJsonQuote key ++ r = '"' :: (escBody key ++ '"' :: r) := by intro key r; simp [pyJsonQuote]
+  by_cases h0 : ns = 0
+  · subst h0
+    have hshape : nodeIdJson ⟨((0 : Nat) : Int), .i, showNat k⟩ ++ after = '{' :: (pyJsonQuote kId ++ ':' :: (showNat k ++ '}' :: after)) := by
+      simp [nodeIdJson, idKey_eq]
+    rw [hshape, hq]
+    refine readValue_obj (f + 3) _ _ after ?_
+    rw [← hq]
+    simpa using readMembers_member (f + 1) kId (showNat k) ('}' :: after) (.num (showNat k)) (readValue_nat (f + 1) k _ (endsNumber_brace _)) [] after (Or.inl ⟨rfl, rfl⟩)
+  · have hshape : nodeIdJson ⟨(ns : Int), .i, showNat k⟩ ++ after =
+        '{' :: (pyJsonQuote kNamespace ++ ':' :: (showNat ns ++ (',' :: (pyJsonQuote kId ++ ':' :: (showNat k ++ '}' :: after))))) := by
+      simp [nodeIdJson, idKey_eq, nsKey_eq, pyStrInt, h0]
+    rw [hshape, hq]
+    refine readValue_obj (f + 3) _ _ after ?_
+    rw [← hq]
+    have hin := readMembers_member f kId (showNat k) ('}' :: after) (.num (showNat k)) (readValue_nat f k _ (endsNumber_brace _)) [] after (Or.inl ⟨rfl, rfl⟩)
+    have hm := readMembers_member (f + 1) kNamespace (showNat ns) (',' :: (pyJsonQuote kId ++ ':' :: (showNat k ++ '}' :: after))) (.num (showNat ns))
+      (readValue_nat (f + 1) ns _ (endsNumber_comma _)) [(kId, .num (showNat k))] after (Or.inr ⟨_, rfl, hin⟩)
+    simpa [h0] using hm
+
+def kTypeId : Str := "TypeId".toList
+def kEncoding : Str := "Encoding".toList
+theorem typeIdKey_eq : "{\"TypeId\":".toList = '{' :: (pyJsonQuote kTypeId ++ [':']) := by decide
+theorem encKey_eq : ",\"Encoding\":2}".toList = ',' :: (pyJsonQuote kEncoding ++ [':', '2', '}']) := by decide
+
+/-- **extension objects with an XML body and a numeric type id**: one object with the type id as a NodeId
+    object, the body as a JSON string holding the XML text character for character, and `Encoding` 2 -/
+theorem extObj_valid (fs : Int → Str) (ns k : Nat) (body : Xml.T) :
+    ∃ j, jsonEncode fs (.extObj ⟨(ns : Int), .i, showNat k⟩ body) = .ok (some j) ∧
+      parseJson j = some (.obj [(kTypeId, .obj ((if ns = 0 then [] else [(kNamespace, .num (showNat ns))]) ++ [(kId, .num (showNat k))])),
+                                (kBody, .str (Xml.render (layoutT body))), (kEncoding, .num ['2'])]) := by
+  refine ⟨"{\"TypeId\":".toList ++ nodeIdJson ⟨(ns : Int), .i, showNat k⟩ ++ ",\"Body\":".toList ++ pyJsonQuote (Xml.render (layoutT body)) ++
+      ",\"Encoding\":2}".toList, by rw [jsonEncode], ?_⟩
+  have hq : ∀ (key r : Str), pyJsonQuote key ++ r = '"' :: (escBody key ++ '"' :: r) := by intro key r; simp [pyJsonQuote]
+  have hshape : "{\"TypeId\":".toList ++ nodeIdJson ⟨(ns : Int), .i, showNat k⟩ ++ ",\"Body\":".toList ++ pyJsonQuote (Xml.render (layoutT body)) ++
+      ",\"Encoding\":2}".toList =
+      '{' :: (pyJsonQuote kTypeId ++ ':' :: (nodeIdJson ⟨(ns : Int), .i, showNat k⟩ ++ (',' :: (pyJsonQuote kBody ++ ':' :: (pyJsonQuote (Xml.render (layoutT body)) ++
+        (',' :: (pyJsonQuote kEncoding ++ ':' :: (['2'] ++ ['}'])))))))) := by
+    rw [typeIdKey_eq, bodyKey_eq, encKey_eq]; simp
+  rw [hshape]
+  refine parseJson_obj _ _ '"' _ (hq _ _) rfl ?_
+  obtain ⟨m, hm⟩ := exists_fuel ((pyJsonQuote kTypeId ++ ':' :: (nodeIdJson ⟨(ns : Int), .i, showNat k⟩ ++ (',' :: (pyJsonQuote kBody ++ ':' :: (pyJsonQuote (Xml.render (layoutT body)) ++
+        (',' :: (pyJsonQuote kEncoding ++ ':' :: (['2'] ++ ['}'])))))))).length + 1) 6 (by
+      have hl : 8 ≤ (pyJsonQuote kTypeId).length := by decide
+      simp only [List.length_append, List.length_cons]; omega)
+  rw [hm]
+  have h2 : showNat 2 = ['2'] := by unfold showNat; simp; decide
+  have h3 := readMembers_member (m + 2) kEncoding ['2'] ['}'] (.num ['2']) (by rw [← h2]; exact readValue_nat (m + 2) 2 _ (endsNumber_brace _)) [] [] (Or.inl ⟨rfl, rfl⟩)
+  have h2' := readMembers_member (m + 3) kBody (pyJsonQuote (Xml.render (layoutT body))) _ (.str (Xml.render (layoutT body)))
+    (readValue_quote (m + 3) _ _) _ [] (Or.inr ⟨_, rfl, h3⟩)
+  exact readMembers_member (m + 4) kTypeId (nodeIdJson ⟨(ns : Int), .i, showNat k⟩) _ _ (nodeId_numeric_read ns k (m + 1) _) _ [] (Or.inr ⟨_, rfl, h2'⟩)
+
+
 /-! ### non-vacuity -/
 example : parseJson (nodeIdJson ⟨2, .s, "Pump 1".toList⟩) =
     some (.obj [(kNamespace, .num ['2']), (kIdType, .num ['1']), (kId, .str "Pump 1".toList)]) := by
